@@ -92,6 +92,17 @@ func devMain(args []string) {
 		if *only != "" && fc.Key != *only {
 			continue
 		}
+		// only the packages named on the command line (dependencies with contracts are loaded too)
+		wanted := false
+		for _, p := range strings.Split(*pkgs, ",") {
+			p = strings.TrimPrefix(strings.TrimPrefix(p, "./"), ".")
+			if fc.Pkg == "google.golang.org/grpc" && p == "" || p != "" && strings.HasSuffix(fc.Pkg, "/"+p) {
+				wanted = true
+			}
+		}
+		if !wanted {
+			continue
+		}
 		if fc.Trusted {
 			fmt.Printf("== %s TRUSTED\n", k)
 			continue
